@@ -184,22 +184,10 @@ def escapes(node, fn):
 
 
 def alt_sorted(repo, want_detail=False):
-    mn = repo.method('supp/name.py', 'MultiName', '__init__')
-    stores = [s for s in ast.walk(mn) if isinstance(s, ast.Assign) and unparse(s.targets[0]) == 'self.alt_names']
-    ok = False
-    detail = ''
-    if len(stores) == 1:
-        v = stores[0].value
-        detail = unparse(v)
-        if isinstance(v, ast.Call) and unparse(v.func) == 'sorted':
-            # sorted by position: default ordering of names is by location, or an explicit location/declared_at key
-            keys = [k for k in v.keywords if k.arg == 'key']
-            ok = not keys or any(w in unparse(keys[0].value) for w in ('location', 'declared_at'))
-        elif isinstance(v, ast.Name):
-            # order-preserving de-duplication of a list that was sorted before
-            ok = any(isinstance(c, ast.Call) and (unparse(c.func) == 'sorted' or unparse(c.func).endswith('.sort'))
-                     for c in ast.walk(mn))
-    return (ok, detail) if want_detail else ok
+    from .. import api_model
+    recs = api_model.multiname_order_model(repo)
+    ok = bool(recs) and all(r[2] for r in recs)
+    return (ok, recs) if want_detail else ok
 
 
 def run(repo, res):
@@ -298,29 +286,13 @@ def run(repo, res):
                           sample='%s: %s' % (k, REASONED_DICTS.get(k)))
 
     # ---- R2 alternatives are position ordered ---------------------------------------------------------
-    mn = repo.method('supp/name.py', 'MultiName', '__init__')
-    ok, detail = alt_sorted(repo, True)
-    res.check('C17-R2', 'MultiName.alt_names order', ok, 'supp/name.py', mn.lineno,
-              'the alternatives of a multiply-bound name must be listed in source order (a position sort); '
-              'alt_names is built as `%s`' % detail, sample='alt_names = %s' % detail)
+    from .. import api_model
+    api_model.apply(res, api_model.multiname_order_model(repo), {'order': 'C17-R2'}, 'supp/name.py', 0)
+    api_model.apply(res, api_model.declarations_model(repo), {'alts': 'C17-R2'}, 'supp/evaluator.py', 0)
+    api_model.apply(res, api_model.location_model(repo), {'pairs': 'C17-R2'}, 'supp/assistant.py', 0)
 
     # ---- R3 API results -------------------------------------------------------------------------------
-    assist = repo.module_func('supp/assistant.py', 'assist')
-    from ..derive import Expander
-    ex = Expander(assist, stop=('line', 'source', 'position'))
-    for r in [n for n in ast.walk(assist) if isinstance(n, ast.Return)]:
-        second = r.value.elts[1] if isinstance(r.value, ast.Tuple) and len(r.value.elts) == 2 else None
-        if isinstance(second, ast.Name):
-            second = ex.expand(second)
-        ok = second is not None and (
-            (isinstance(second, ast.Call) and unparse(second.func) in ('sorted', 'list_packages')))
-        res.check('C17-R3', 'assist return `%s`' % unparse(r.value)[:50], ok, 'supp/assistant.py', r.lineno,
-                  'assist must return proposals that are sorted at the return site', nontrivial=False)
-    lp = repo.module_func('supp/assistant.py', 'list_packages')
-    r = lp.body[-1]
-    res.check('C17-R3', 'list_packages sorted', isinstance(r, ast.Return) and isinstance(r.value, ast.Call)
-              and unparse(r.value.func) == 'sorted', 'supp/assistant.py', lp.lineno,
-              'list_packages must sort the set of module names', nontrivial=False)
+    api_model.apply(res, api_model.assist_model(repo), {'sorted': 'C17-R3', 'pkg': 'C17-R3'}, 'supp/assistant.py', 0)
 
     # ---- R4 identity / address derived values ------------------------------------------------------------
     entries = ['supp/assistant.py:assist', 'supp/assistant.py:location', 'supp/linter.py:lint']
